@@ -3,6 +3,7 @@ package sym
 import (
 	"fmt"
 	"testing"
+	"unicode"
 )
 
 // Differential validation of the fmt.Sscanf model (intrinsics_cond.go) against the real fmt.Sscanf for
@@ -100,6 +101,52 @@ func TestRuneToStrSym(t *testing.T) {
 		got, ok := m.runeToStrSym(m.tt.Const(32, uint64(uint32(r)))).Concrete()
 		if !ok || got != string(rune(r)) {
 			t.Errorf("rune %#x: got %q ok=%v want %q", r, got, ok, string(rune(r)))
+		}
+	}
+}
+
+// The flat range-table predicate must agree with unicode.IsLetter / unicode.IsDigit: checked on every
+// rune below U+3000, on every boundary of every table range (lo-1, lo, lo+1, hi-1, hi, hi+1), on a
+// stride through the rest of the code space, and on out-of-range values.
+func TestUnicodeRangeTerm(t *testing.T) {
+	m := &Machine{tt: NewTermTable()}
+	r := m.tt.Var("r", 32)
+	for _, c := range []struct {
+		name   string
+		tab    *unicode.RangeTable
+		native func(rune) bool
+	}{{"IsLetter", unicode.Letter, unicode.IsLetter}, {"IsDigit", unicode.Digit, unicode.IsDigit}} {
+		term := m.inRangeTable(r, c.tab)
+		bad := 0
+		check := func(v int32) {
+			got := Eval(term, map[string]uint64{"r": uint64(uint32(v))}, map[*Term]uint64{}) == 1
+			if got != c.native(rune(v)) {
+				bad++
+				if bad < 10 {
+					t.Errorf("%s(%#x): term %v native %v", c.name, v, got, c.native(rune(v)))
+				}
+			}
+		}
+		for v := int32(0); v < 0x3000; v++ {
+			check(v)
+		}
+		for v := int32(0x3000); v < 0x120000; v += 131 {
+			check(v)
+		}
+		around := func(lo, hi uint32) {
+			for _, d := range []int32{-1, 0, 1} {
+				check(int32(lo) + d)
+				check(int32(hi) + d)
+			}
+		}
+		for _, x := range c.tab.R16 {
+			around(uint32(x.Lo), uint32(x.Hi))
+		}
+		for _, x := range c.tab.R32 {
+			around(x.Lo, x.Hi)
+		}
+		for _, v := range []int32{-1, -2147483648, 0x7fffffff, 0x10ffff, 0x110000} {
+			check(v)
 		}
 	}
 }
